@@ -3,8 +3,13 @@
 import re, sys, json
 pid = sys.argv[1]
 md = open('/verif/out/ready/%s.md' % pid).read()
-i = md.lower().rfind('manifest')
+heads = [m.start() for m in re.finditer(r'(?im)^#+ .*manifest.*$', md)]
+cur = [m.start() for m in re.finditer(r'(?im)^#+ .*manifest proposal \(current\).*$', md)]
+i = (cur or heads or [md.lower().rfind('manifest')])[-1]
 sec = md[i:]
+nxt = re.search(r'(?m)^## ', sec[3:])
+if nxt:
+    sec = sec[:nxt.start() + 3]
 def grab(key):
     m = re.search(r'%s\W*?[:=]\s*(.*?)(?=\n\s*[-*`]*\s*(?:level_claimed\.text|level_note|technique|coq_targets)\b|\n#|\Z)' % re.escape(key), sec, re.S | re.I)
     if not m: return None
